@@ -289,3 +289,26 @@ func zzH_C12_archiveHeader() {
 		verifReach("header-refused")
 	}
 }
+
+
+// the relay's own parser of handshake lines (ACT from the client, CFG from the server), plain and Windows framing, on
+// arbitrary short lines: an error, never a crash (the handshake worker has no recover)
+func zzH_C12_relayLines() {
+	line := zzSymBytes12(verifNondetRange(0, verifBound("L")))
+	for _, c := range line {
+		verifAssume(c != '\n')
+	}
+	b := newTrzszBuffer()
+	typ := []string{"ACT", "CFG"}[verifNondetRange(0, 1)]
+	// the reader may go on waiting (a line of noise only is skipped): it runs as a thread of its own
+	if verifNondetBool() {
+		b.addBuffer(append(append([]byte{}, line...), '!', '\n'))
+		go recvStringForWindows(b, typ)
+	} else {
+		junk := verifNondetBool()
+		b.addBuffer(append(append([]byte{}, line...), '\n'))
+		go recvStringFromBuffer(b, typ, junk)
+	}
+	verifQuiesce()
+	verifReach("relay-line-parsed")
+}
